@@ -27,7 +27,7 @@ def make_cfg(rng):
     cfg['p_say'] = rng.choice([0.0, 0.0, 0.2, 0.5])
     cfg['n_modules'] = (1, 1)
     cfg['n_funcs'] = (1, 3)
-    cfg['forms'] = list(gen.SIMPLE_FORMS) + ['emitop', 'emitnoeol', 'emitnoeol', 'writeout', 'writeout', 'const', 'const']
+    cfg['forms'] = list(gen.SIMPLE_FORMS) + ['emitop', 'emitnoeol', 'emitnoeol', 'writeout', 'writeout', 'const', 'const', 'modsay']
     cfg['p_none_want'] = rng.choice([0.0, 0.15])
     if rng.random() < 0.25:
         cfg['async_forms'] = list(gen.ASYNC_FORMS)
@@ -165,7 +165,7 @@ def generate(rng, tier):
         used.add((dtid, k))
         p = rng.choice(pts)
         if p['form'] in PRINT_FORMS or p['form'] in ('emit', 'say'):
-            kind = rng.choice(['wrong', 'wrong', 'mute', 'extra_line', 'prepend_line'])
+            kind = rng.choice(['wrong', 'wrong', 'mute', 'extra_line', 'prepend_line', 'ansi'])
         else:
             kind = rng.choice(['wrong', 'wrong', 'wrong', 'bad_repr'])
         if rng.random() < 0.12:
@@ -175,8 +175,12 @@ def generate(rng, tier):
             f['exc'] = rng.choice(['ValueError', 'KeyError', 'ZeroDivisionError'])
             f['msg'] = rng.choice(['fault %s', 'fault %s went wrong.', 'fault %s in file data.txt']) % p['pid']
         plan.append(f)
-    return {'profile': ID, 'world': world, 'ops': ops, 'plan': plan,
-            'env': {'listing_seed': rng.randint(0, 99)}}
+    env = {'listing_seed': rng.randint(0, 99)}
+    if rng.random() < 0.15:
+        plan.append({'import': world['modules'][0]['name'], 'kind': 'print'})
+    if rng.random() < 0.2:
+        env['no_color'] = True              # NO_COLOR was set when xdoctest was imported
+    return {'profile': ID, 'world': world, 'ops': ops, 'plan': plan, 'env': env}
 
 
 N_SWEEPS_THOROUGH = 600
